@@ -5,13 +5,13 @@ from vlib.props import c01
 PID = 'C02'
 OBJ = 'streett'
 FILES = ['omega/games/gr1.py', 'omega/symbolic/symbolic.py', 'omega/symbolic/fixpoint.py']
-GROUPS = [['init', 'safety'], ['closure'], ['nonblock', 'moore-indep'], ['liveness'], ['pointwise']]
+GROUPS = [['init', 'safety', 'range'], ['closure'], ['nonblock', 'moore-indep'], ['liveness'], ['pointwise']]
 
 
 def shapes_for(tier):
     if tier == 'quick':
-        return [('B11a', 'cudd'), ('S11', 'cudd'), ('S11h2', 'cudd'), ('S11g2', 'cudd'), ('B02', 'cudd'), ('T11b', 'cudd'), ('S11', 'autoref')]
-    return [('B11a', 'cudd'), ('S11h2', 'cudd'), ('S11g2', 'cudd'), ('T11b', 'cudd'), ('B11b', 'cudd'), ('B11c21', 'cudd'), ('B11c12', 'cudd'), ('S11', 'cudd'),
+        return [('B11a', 'cudd'), ('S11', 'cudd'), ('S11h2', 'cudd'), ('B02', 'cudd'), ('T11b', 'cudd'), ('S11', 'autoref')]
+    return [('B11a', 'cudd'), ('S11h2', 'cudd'), ('S11g2', 'cudd'), ('T11b', 'cudd'), ('B11b', 'cudd'), ('S11', 'cudd'),
             ('B02', 'cudd'), ('S11', 'autoref'), ('B02', 'autoref')]
 
 
@@ -30,7 +30,7 @@ def run(tier, seed, t0, only=None, pid=PID, obj=OBJ, files=FILES, shapes=None):
         nstates = 4
         for moore, plus_one in c01.MODES:
             for grp in GROUPS:
-                split = shape.startswith('B11') and grp[0] in ('closure', 'nonblock')
+                split = (shape.startswith('B11') or shape.startswith('S11g')) and grp[0] in ('init', 'closure', 'nonblock')
                 for part in (range(nstates) if split else [None]):
                     tasks.append(dict(mod='vlib.trans', fn='family_obligations',
                                       kw=dict(shape=shape, moore=moore, plus_one=plus_one, objective=obj, which=grp,
@@ -38,6 +38,14 @@ def run(tier, seed, t0, only=None, pid=PID, obj=OBJ, files=FILES, shapes=None):
                                       backend=be, timeout=1200 if tier == 'quick' else 6000,
                                       name=f'{be}:{obj}-impl:{shape}:moore={moore}:plus_one={plus_one}:{grp[0]}'
                                            + ('' if part is None else f'@state{part}')))
+    nmem = 24 if tier == 'quick' else 300
+    for shape in ('S11g2', 'S11g3', 'S11h2', 'S11g2h2', 'B11a'):
+        for moore, plus_one in c01.MODES:
+            sds = [seed * 100000 + i for i in range(nmem)]
+            for i in range(0, nmem, 24):
+                tasks.append(dict(mod='vlib.trans', fn='member_instances',
+                                  kw=dict(shape=shape, moore=moore, plus_one=plus_one, objective=obj, seeds=sds[i:i + 24]),
+                                  timeout=3000, name=f'cudd:{obj}-impl:members:{shape}:moore={moore}:plus_one={plus_one}[{i}]'))
     if only:
         tasks = [t for t in tasks if only in t['name']]
     results = core.run_tasks(tasks)
